@@ -327,8 +327,10 @@ class World:
                 continue  # parameter no longer in the (shrunk) document
             py = names.get((name, loc))
             if py is None:
-                build_err = f"generator has no python name for parameter {name!r} in {loc}"
-                continue
+                # the operation was generated, the document declares this parameter with a schema, yet the
+                # function has no argument for it: the argument cannot be put where the document says it goes
+                self.v("C03", "declared-parameter-not-accepted", loc, f"{opid}: parameter {name!r} in {loc} is declared by the document but the generated function has no argument for it (known names: {sorted(names)})")
+                return None
             try:
                 kwargs[py] = inst.py_value(p["schema"], J, self.doc, self.pkg.models, hints.get(py), self.pkg.types.File, self.lit)
             except Exception as e:  # noqa: BLE001
